@@ -39,7 +39,7 @@ type c14Scenario struct {
 	ExecSeed uint64    `json:"exec_seed"`
 }
 
-var c14Ops = []string{"WithProfiles", "WithServicesEnabled", "WithServicesDisabled", "WithSelectedServices", "WithSelectedServices/dependents", "WithSelectedServices/ignore",
+var c14Ops = []string{"WithProfiles", "WithProfiles/own-slice", "WithServicesEnabled", "WithServicesDisabled", "WithSelectedServices", "WithSelectedServices/dependents", "WithSelectedServices/ignore",
 	"WithoutUnnecessaryResources", "WithServicesEnvironmentResolved", "WithServicesLabelsResolved", "WithImagesResolved", "WithServicesTransform",
 	"ForEachService", "MarshalYAML", "MarshalJSON", "MarshalYAML+secrets", "MarshalJSON+secrets", "mutate", "mutate", "observe"}
 
@@ -288,7 +288,12 @@ func runC14(sc *c14Scenario) *c14Result {
 		var err error
 		switch base {
 		case "WithProfiles":
-			res, err = recv.WithProfiles(append([]string(nil), st.Args...))
+			if st.Op == "WithProfiles/own-slice" {
+				// a caller re-applying the project's own profile list hands the receiver's slice in
+				res, err = recv.WithProfiles(recv.Profiles)
+			} else {
+				res, err = recv.WithProfiles(append([]string(nil), st.Args...))
+			}
 		case "WithServicesEnabled":
 			res, err = recv.WithServicesEnabled(st.Args...)
 		case "WithServicesDisabled":
